@@ -54,7 +54,22 @@ def run(ctx: Ctx, tier: str) -> Result:
                 res.fail(Finding("C01.R1", entry.qname, s.node, entry.loc(s.node),
                                  "%s may be raised into application code (no enclosing catch-all in the trace "
                                  "callback)" % tok, path=g.fmt_chain(ch)))
-        # handlers of the catch-alls must themselves be non-raising: they are sites of `entry` already.
+        # every may-raise site of every function reachable from the callback is an obligation: it is discharged when
+        # nothing escapes the callback (the sites of the callback itself were classified above)
+        if not g.escape_tokens(entry):
+            shown = 0
+            for f in sorted(reach, key=lambda x: x.qname):
+                if f is entry:
+                    continue
+                for s_ in g.sites(f):
+                    if not s_.tokens:
+                        continue
+                    local = g.site_escapes(s_, f)
+                    sample = None
+                    if local and shown < 12:
+                        shown += 1
+                        sample = {"site": norm(s_.node)[:80], "in": f.qname, "escapes its function as": sorted(local), "contained": "by the callback's catch-all"}
+                    res.ok("C01.R1", sample)
 
         # ---- R2
         check_returns(ctx, res, entry, entry, set())
